@@ -7,23 +7,56 @@ import MsVerif.Model.Tokens
 namespace MsVerif.Driver
 open MsVerif Script
 
-/-- Reverse lookup of atoms in the harness tables.  Convention (harness/src/c04.rs): a key id
-`≥ 900` registers a byte string that the library REJECTS as a key (`from_slice` fails). -/
-def Tables.atomDec (t : Tables) : AtomDec where
+/-! ### opaque atoms
+
+A 20/32/33/65-byte push that is not in the harness tables is still a perfectly good hash / key
+for the decoder.  It gets the OPAQUE atom `opaqueOf bytes` (the bytes read as a big-endian
+number behind a leading 1, so ≥ 2^160 and injective), whose serialisation is those bytes.
+Whether an unknown 32/33/65-byte string is a curve point is the one thing the model cannot
+compute: the harness passes the strings of the input that libsecp rejects (`invalid`). -/
+
+def opaqueOf (bs : Bytes) : Nat := bs.foldl (fun acc b => acc * 256 + b.toNat) 1
+
+def opaqueBase : Nat := 2 ^ 64
+
+/-- inverse of `opaqueOf` (fuel = number of bytes is ≤ 65) -/
+def opaqueBytesAux : Nat → Nat → Bytes → Bytes
+  | 0, _, acc => acc
+  | fuel + 1, n, acc => if n ≤ 1 then acc else opaqueBytesAux fuel (n / 256) (UInt8.ofNat (n % 256) :: acc)
+
+def opaqueBytes (n : Nat) : Bytes := opaqueBytesAux 80 n []
+
+/-- Reverse lookup of atoms in the harness tables, total through opaque atoms.  Convention
+(harness/src/c04.rs): a key id `≥ 900` (below `opaqueBase`) registers a byte string that the
+library REJECTS as a key (`from_slice` fails). -/
+def Tables.atomDecT (t : Tables) (invalid : List Bytes) : AtomDec where
   full bs :=
     match t.keys.find? (fun e => e.2.1 == bs) with
     | some e => if e.1 ≥ 900 then .invalid else .ok e.1
-    | none => .unknown
+    | none => if invalid.contains bs then .invalid else .ok (opaqueOf bs)
   xonly bs :=
     match t.keys.find? (fun e => e.2.1 == bs) with
     | some e => if e.1 ≥ 900 then .invalid else .ok e.1
-    | none => .unknown
-  rawPkh bs := (t.rawpkh.find? (fun e => e.2 == bs)).map (·.1)
-  hash kind bs := (t.hashes.find? (fun e => e.1.1 == kind && e.2.1 == bs)).map (·.1.2)
+    | none => if invalid.contains bs then .invalid else .ok (opaqueOf bs)
+  rawPkh bs := some (((t.rawpkh.find? (fun e => e.2 == bs)).map (·.1)).getD (opaqueOf bs))
+  hash kind bs :=
+    some (((t.hashes.find? (fun e => e.1.1 == kind && e.2.1 == bs)).map (·.1.2)).getD (opaqueOf bs))
+
+def Tables.atomDec (t : Tables) : AtomDec := t.atomDecT []
+
+/-- the tables' `KeyEnv`, extended to opaque atoms -/
+def Tables.keyEnvT (t : Tables) : KeyEnv where
+  ser k := if k ≥ opaqueBase then opaqueBytes k else t.keyEnv.ser k
+  sortKey k := if k ≥ opaqueBase then opaqueBytes k else t.keyEnv.sortKey k
+  pkh k := t.keyEnv.pkh k
+  rawPkh h := if h ≥ opaqueBase then opaqueBytes h else t.keyEnv.rawPkh h
+  hashVal kind h := if h ≥ opaqueBase then opaqueBytes h else t.keyEnv.hashVal kind h
 
 /-- the raw-pkh atom whose bytes are the key hash of key `k` (0 if the table has none) -/
 def Tables.rpOf (t : Tables) (k : Key) : Nat :=
-  ((t.atomDec.rawPkh (t.keyEnv.pkh k))).getD 0
+  ((t.rawpkh.find? (fun e => e.2 == t.keyEnv.pkh k)).map (·.1)).getD 0
+
+def showAtom (k : Nat) : String := if k ≥ opaqueBase then "x" ++ Hash.toHex (opaqueBytes k) else toString k
 
 def showToken : Token → String
   | .boolAnd => "BoolAnd" | .boolOr => "BoolOr" | .add => "Add" | .equal => "Equal"
@@ -52,15 +85,15 @@ def showDecodeErr : DecodeErr → String
   | .trailing => "ERR:trailing" | .validation => "ERR:validation"
   | .panic => "PANIC" | .unknownAtom => "UNKNOWN-ATOM" | .fuel => "MODEL-FUEL"
 
-def showNats (ks : List Nat) : String := ",".intercalate (ks.map toString)
+def showNats (ks : List Nat) : String := ",".intercalate (ks.map showAtom)
 
 mutual
 /-- same wire form as harness `Node::wire()` -/
 def showMs : Ms → String
   | .tru => "1" | .fls => "0"
-  | .pkK k => s!"pk_k({k})" | .pkH k => s!"pk_h({k})" | .rawPkH h => s!"raw_pkh({h})"
+  | .pkK k => s!"pk_k({showAtom k})" | .pkH k => s!"pk_h({showAtom k})" | .rawPkH h => s!"raw_pkh({showAtom h})"
   | .after n => s!"after({n})" | .older n => s!"older({n})"
-  | .hash kind h => s!"{HashKind.name kind}({h})"
+  | .hash kind h => s!"{HashKind.name kind}({showAtom h})"
   | .alt x => "a(" ++ showMs x ++ ")" | .swap x => "s(" ++ showMs x ++ ")"
   | .check x => "c(" ++ showMs x ++ ")" | .dupIf x => "d(" ++ showMs x ++ ")"
   | .verify x => "v(" ++ showMs x ++ ")" | .nonZero x => "j(" ++ showMs x ++ ")"
@@ -83,6 +116,14 @@ def showMsList : MsList → String
 end
 
 /-- the decoder's normal form of `ms` over the tables -/
+def parseHexList' (s : String) : Option (List Bytes) :=
+  if s == "-" then some [] else (s.splitOn ",").mapM Hash.ofHex
+
+/-- `to_x_only_pubkey`: the table key whose serialisation is the 32-byte x coordinate of the
+33-byte key `k` (0 if there is none) -/
+def toXOnly (t : Tables) (k : Key) : Key :=
+  ((t.keys.find? (fun e => e.2.1 == (t.keyEnv.ser k).drop 1 && e.2.1.length == 32)).map (·.1)).getD 0
+
 def canonForm (t : Tables) (ms : Ms) : Ms := norm (desugar t.keyEnv t.rpOf ms)
 
 def opsDecode (t : Tables) (kind op : String) (args : List String) : Option String :=
@@ -93,12 +134,37 @@ def opsDecode (t : Tables) (kind op : String) (args : List String) : Option Stri
     pure (match lex bs with
       | .ok ts => showTokens ts
       | .error e => "ERR:" ++ showLexErr e)
-  -- C decode <ctx> <hex>  →  `decode_consensus`: AST wire | ERR:<kind>
-  | "C", "decode", [ctx, hex] => do
-    let ctx ← parseCtx ctx; let bs ← Hash.ofHex hex
-    pure (match decodeScript t.atomDec t.keyEnv ctx bs with
+  -- C decode <ctx> <hex> <rejected key strings | ->  →  `decode_consensus`: AST wire | ERR:<kind>
+  | "C", "decode", [ctx, hex, inv] => do
+    let ctx ← parseCtx ctx; let bs ← Hash.ofHex hex; let inv ← parseHexList' inv
+    pure (match decodeScript (t.atomDecT inv) t.keyEnvT ctx bs with
       | .ok ms => showMs ms
       | .error e => showDecodeErr e)
+  -- C decodep <ctx> <consensus|max> <hex> <rejected key strings | ->
+  --   →  `decode_with_validation_params(script, &Ctx::CONSENSUS | &ValidationParams::MAX)`
+  | "C", "decodep", [ctx, params, hex, inv] => do
+    let ctx ← parseCtx ctx; let bs ← Hash.ofHex hex; let inv ← parseHexList' inv
+    let p ← (match params with | "consensus" => some DecParams.consensus | "max" => some .max | _ => none)
+    pure (match decodeScriptP p (t.atomDecT inv) t.keyEnvT ctx bs with
+      | .ok ms => showMs ms
+      | .error e => showDecodeErr e)
+  -- J size <ctx | tapfull> <ast> <library script_size()>: equals the length of the (Lean) encoding
+  -- (`tapfull`: Taproot over full keys, i.e. the encoding of the x-only translation)
+  | "J", "size", [ctx, ast, size] => do
+    let ms ← parseAst ast; let n ← size.toNat?
+    let bytes ← (if ctx == "tapfull" then some (encodeBytes t.keyEnv .tap (reKey (toXOnly t) ms))
+                 else (parseCtx ctx).map (fun c => encodeBytes t.keyEnv c ms))
+    pure (if bytes.length == n then "ok" else "bad:size-differs")
+  -- J tapfull <ast over FULL keys> <library encode of Miniscript<PublicKey,Tap>> <decoded wire>
+  -- specified behaviour: every key is pushed in its x-only form, so the script is the encoding
+  -- of the x-only translation and decoding returns (the normal form of) that translation
+  | "J", "tapfull", [ast, hex, decoded] => do
+    let ms ← parseAst ast
+    let ms' := reKey (toXOnly t) ms
+    if Hash.toHexW (encodeBytes t.keyEnv .tap ms') != hex then pure "bad:script-not-xonly-encoding" else
+    match parseAst decoded with
+    | none => pure "bad:decode-failed"
+    | some d => pure (if d == canonForm t ms' then "ok" else "bad:keys-not-xonly-translation")
   -- C tokens <ctx> <ast>  →  the structural token list of the encoding (model-internal
   -- self check against `C lex` of the library's encoding is done by `J toks`)
   | "C", "tokens", [ctx, ast] => do
@@ -108,11 +174,11 @@ def opsDecode (t : Tables) (kind op : String) (args : List String) : Option Stri
   | "C", "canonform", [ast] => do
     let ms ← parseAst ast
     pure (showMs (canonForm t ms))
-  -- J rt <ctx> <ast> <script hex (library encode)> <decoded AST wire (library) | ERR:..> <re-encoded hex | ->
-  --     <type of original> <type of decoded>
+  -- J rt <ctx> <ast> <script hex (library encode)> <entry point: decode_consensus | params-consensus |
+  --     params-max> <decoded AST wire (library) | ERR:..> <re-encoded hex | -> <type of original> <type of decoded>
   -- the library's own round trip judged: decoded = normal form of the original, same bytes,
   -- same type (the Lean typing of BOTH trees, and the library's two type strings)
-  | "J", "rt", [_ctx, ast, hex, decoded, reenc, ty0, ty1] => do
+  | "J", "rt", [_ctx, ast, hex, _entry, decoded, reenc, ty0, ty1] => do
     let ms ← parseAst ast
     if decoded.startsWith "ERR" || decoded == "PANIC" then pure "bad:decode-failed" else
     match parseAst decoded with
